@@ -397,6 +397,18 @@ func (e *penv) evalD(v ssa.Value, depth int) (int64, bool) {
 		return val, seen
 	case *ssa.Call:
 		n := calleeName(&x.Call)
+		if (n == "builtin:len" || n == "builtin:cap") && len(x.Call.Args) == 1 {
+			t := x.Call.Args[0].Type().Underlying()
+			if p, ok := t.(*types.Pointer); ok {
+				t = p.Elem().Underlying()
+			}
+			if arr, ok := t.(*types.Array); ok {
+				return arr.Len(), true
+			}
+			if s, ok := constString(x.Call.Args[0]); ok && n == "builtin:len" {
+				return int64(len(s)), true
+			}
+		}
 		if (n == "builtin:min" || n == "builtin:max") && len(x.Call.Args) >= 1 {
 			_, uns, isInt := intBits(x.Type())
 			if !isInt {
